@@ -16,7 +16,7 @@ Lemma wp_comp_list f : CopyValueDefs.P_cs m f -> forall D cap rl a src vs fc w',
   wf_ptr m src -> caligned src -> ctag_ok m src -> den true m 0 [] src (VList LComp vs) -> forallb cvdom vs = true ->
   write_ptr (S f) true (dstw D cap m rl) 0 a InSrc src fc = Ok w' ->
   exists word body cap' rl',
-    w' = dstw (put_word D a word ++ body) cap' m rl' /\ hinv (D ++ body) /\
+    w' = dstw (put_word D a word ++ body) cap' m rl' /\ hinv (D ++ body) /\ bytes_ok body /\
     forall pre' tail, zlen pre' = zlen D -> word_is pre' a word -> zlen (pre' ++ body ++ tail) <= BOUND ->
       reads_as (pre' ++ body ++ tail) a (VList LComp vs).
 Proof.
@@ -76,15 +76,15 @@ Proof.
   set (elemq := fun i : Z => mkPtr true 0 (zlen D + 8 + i * (8 * bw)) 0 (p_size src) 0 KStruct false false true).
   set (P := fun (i : Z) (M : list Z) => zlen M <= BOUND -> forall mid caps, den true [M] mid caps (elemq i) (nthv vs i)).
   assert (Finish : forall cap3 rl3 (w3 : world) words kids,
-            w3 = dstw (set_slots D1 (zlen D + 8) words ++ kids) cap3 m rl3 -> zlen words = bw * n -> hinv (D1 ++ kids) ->
+            w3 = dstw (set_slots D1 (zlen D + 8) words ++ kids) cap3 m rl3 -> zlen words = bw * n -> hinv (D1 ++ kids) -> bytes_ok kids ->
             (forall pre' tail, zlen pre' = zlen D1 -> sub pre' (zlen D + 8) (8 * bw * n) = bytes_of_words words ->
                forall i, 0 <= i < n -> P i (pre' ++ kids ++ tail)) ->
             (do raw <- list_raw dstl; place w3 0 a (p_seg dstl) (if p_comp dstl then u32 (p_off dstl - 8) else p_off dstl) raw) = Ok w' ->
             exists word body cap' rl',
-              w' = dstw (put_word D a word ++ body) cap' m rl' /\ hinv (D ++ body) /\
+              w' = dstw (put_word D a word ++ body) cap' m rl' /\ hinv (D ++ body) /\ bytes_ok body /\
               forall pre' tail, zlen pre' = zlen D -> word_is pre' a word -> zlen (pre' ++ body ++ tail) <= BOUND ->
                 reads_as (pre' ++ body ++ tail) a (VList LComp vs)).
-  { intros cap3 rl3 w3 words kids -> Lw Hinvk PostL HP.
+  { intros cap3 rl3 w3 words kids -> Lw Hinvk Bk PostL HP.
     assert (Edata : set_slots D1 (zlen D + 8) words = DT ++ bytes_of_words words).
     { unfold D1. replace (Z.to_nat (8 * n * bw)) with (8 * length words)%nat by (unfold zlen in *; lia).
       rewrite <- LT. apply set_slots_end. }
@@ -112,6 +112,7 @@ Proof.
     split.
     { assert (L8' : zlen (le_encode 8 t) = 8) by (unfold zlen; rewrite le_encode_length; lia).
       destruct Hinvk as [X1 X2]. rewrite zlen_app, L1 in X1, X2. split; rewrite !zlen_app, L8', Lbw; lia. }
+    split; [apply Forall_app; split; [apply Forall_app; split; [apply le_encode_bytes|apply bow_bytes_ok]|exact Bk]|].
     intros pre' tail Lp' Hw Hbound.
     set (M := pre' ++ ((le_encode 8 t ++ bytes_of_words words) ++ kids) ++ tail) in *.
     assert (L8 : zlen (le_encode 8 t) = 8) by (unfold zlen; rewrite le_encode_length; lia).
@@ -166,7 +167,7 @@ Proof.
     { rewrite app_nil_r. unfold D1. rewrite <- LT. replace (Z.to_nat (8 * n * bw)) with (8 * length words)%nat by (unfold zlen in *; lia).
       rewrite set_slots_end, Ebw. reflexivity. }
     rewrite Ew in H.
-    refine (Finish cap1 rl _ words [] eq_refl Lw _ _ H).
+    refine (Finish cap1 rl _ words [] eq_refl Lw _ (Forall_nil _) _ H).
     + rewrite app_nil_r. split; lia.
     + intros pre' tail Lp' Hs i Hi0 Hbound mid caps. cbn [app] in *.
       destruct (Shape i Hi0) as (ws & ps & Ev & Lws & Lps). rewrite Ev.
@@ -206,7 +207,7 @@ Proof.
               step (dstw D0' cap0 m rl0) i = Ok w0 ->
               exists block body cap' rl',
                 zlen block = bw /\
-                w0 = dstw (set_slots D0' ((zlen D + 8) + 8 * bw * i) block ++ body) cap' m rl' /\ hinv (D0' ++ body) /\
+                w0 = dstw (set_slots D0' ((zlen D + 8) + 8 * bw * i) block ++ body) cap' m rl' /\ hinv (D0' ++ body) /\ bytes_ok body /\
                 forall pre' tail, zlen pre' = zlen D0' -> sub pre' ((zlen D + 8) + 8 * bw * i) (8 * bw) = bytes_of_words block ->
                   P i (pre' ++ body ++ tail)).
     { intros i D0' cap0 rl0 w0 Hi0 Hinv0 Hb0 Hs0. unfold step in Hs0.
@@ -244,12 +245,12 @@ Proof.
       assert (Hdst : dst_at de A dn pn) by (unfold dst_at, de; cbn [p_valid p_seg p_off p_size]; repeat split; try reflexivity; exact Esize).
       destruct (HC D0' cap0 rl0 de se ws ps A dn pn w0 Hinv0 Hdst ltac:(unfold A, bw in *; nia) ltac:(unfold A; lia)
                    ltac:(lia) ltac:(unfold pn; lia) ltac:(unfold A, bw in *; nia) Ve Kse We Ale De SDi Hs0)
-        as (pwords & kids & cap2 & rl2 & Lp & -> & Hinv2 & PostC).
+        as (pwords & kids & cap2 & rl2 & Lp & -> & Hinv2 & Bk0 & PostC).
       assert (Edw : resize_words ws (Z.to_nat dn) = ws).
       { replace (Z.to_nat dn) with (length ws) by (unfold zlen in Lws; lia). apply resize_words_id. }
       rewrite Edw in *.
       exists (ws ++ pwords), kids, cap2, rl2.
-      split; [rewrite zlen_app; unfold bw; lia|]. split; [reflexivity|]. split; [exact Hinv2|].
+      split; [rewrite zlen_app; unfold bw; lia|]. split; [reflexivity|]. split; [exact Hinv2|]. split; [exact Bk0|].
       intros pre' tail Lp' Hs Hbound mid caps. rewrite Ev.
       assert (Lt0 : 0 <= zlen tail) by (unfold zlen; lia). assert (Lk0 : 0 <= zlen kids) by (unfold zlen; lia).
       destruct Hinv0 as [Hu1 Hu2].
@@ -272,9 +273,9 @@ Proof.
     assert (Hn0 : Z.of_nat (Z.to_nat n) = n) by lia.
     destruct (sem_blocks_loop step m (zlen D + 8) bw (Z.to_nat n) P ltac:(lia) ltac:(lia) ltac:(unfold bw; lia) Hstep
                  (Z.to_nat n) (le_n _) D1 cap1 rl w3 ltac:(split; lia) ltac:(rewrite L1, Hn0; lia) E1)
-      as (words & kids & cap2 & rl2 & Lw & -> & Hinvk & PostL).
+      as (words & kids & cap2 & rl2 & Lw & -> & Hinvk & Bk & PostL).
     rewrite Hn0 in *.
-    refine (Finish cap2 rl2 _ words kids eq_refl Lw Hinvk _ H).
+    refine (Finish cap2 rl2 _ words kids eq_refl Lw Hinvk Bk _ H).
     intros pre' tail Lp' Hs i Hi0. apply (PostL pre' tail Lp' Hs i Hi0).
 Qed.
 
